@@ -83,6 +83,24 @@ class Obj:
         return f"<Obj {self.cls.name if self.cls else self.name}>"
 
 
+class EnumMember:
+    def __init__(self, cls, name, value):
+        self.cls, self.name, self.value = cls, name, value
+
+    def __eq__(self, o):
+        if isinstance(o, EnumMember):
+            return self.cls is o.cls and self.value == o.value
+        if any(b.split(".")[-1] == "IntEnum" for b in self.cls.bases) and isinstance(o, int):
+            return self.value == o
+        return False
+
+    def __hash__(self):
+        return hash((self.cls.name, self.value))
+
+    def __repr__(self):
+        return f"{self.cls.short}.{self.name}"
+
+
 class ClassRef:
     def __init__(self, cls):
         self.cls = cls
@@ -365,6 +383,8 @@ class Interp:
                     return BoundMethod(None, m2.functions[nm])
         if e.id in ("struct", "time", "asyncio", "logging", "re", "math"):
             return ModuleRef(e.id)
+        if mod is not None and e.id in mod.imports:
+            return Opaque(e.id)  # imported from outside the package (datetime, ...)
         raise Undecided(f"unbound name {e.id}")
 
     def e_Attribute(self, e, env):
@@ -401,6 +421,9 @@ class Interp:
                 return Builtin("noop")
             raise Undecided(f"super().{attr} not found")
         if isinstance(base, ClassRef):
+            if any(b.split(".")[-1] in ("IntEnum", "Enum") for b in base.cls.bases) and attr in base.cls.consts \
+                    and isinstance(base.cls.consts[attr], ast.Constant):
+                return EnumMember(base.cls, attr, base.cls.consts[attr].value)
             for k in self.repo.mro(base.cls):
                 if attr in k.consts:
                     return self.eval(k.consts[attr], {"__class__": k, "__mod__": k.mod})
@@ -445,6 +468,16 @@ class Interp:
     def apply(self, callee, args, kwargs, node=None):
         if isinstance(callee, BoundMethod):
             return self.call(callee.fi, callee.obj, args, kwargs)
+        if isinstance(callee, ClassRef) and any(b.split(".")[-1] in ("IntEnum", "Enum") for b in callee.cls.bases):
+            if len(args) != 1:
+                raise Undecided("enum call arity")
+            v = args[0]
+            if not isinstance(v, int):
+                raise Undecided("enum lookup of a symbolic value")
+            for nm, ex in callee.cls.consts.items():
+                if isinstance(ex, ast.Constant) and ex.value == v:
+                    return EnumMember(callee.cls, nm, v)
+            raise PyRaise(f"ValueError: {v} is not a valid {callee.cls.short}", node)
         if isinstance(callee, ClassRef):
             obj = Obj(callee.cls)
             init = None
